@@ -21,9 +21,20 @@ Supported subset (anything else raises `Unsupported`, which the caller reports a
               the syntactic bound or comes from the kernel's spec), `(void)0` (what assert() leaves with -DNDEBUG)
   extras      a local pointer initialised from `lzma_alloc()` is a FRESH object: `== NULL` is False (allocation succeeds),
               its integer fields that are written are results, pointer-typed stores are skipped and listed in the
-              generated docstring; FRAGMENT mode (spec `fragment = {first_decl, last_assign}`) translates the statements of
-              one block from a declaration to an assignment, free variables become parameters, the first result
-              component is 0 (fell through) or r + 1 (`return r`);  locals holding a constant are propagated.
+              generated docstring;  locals holding a constant are propagated;
+              `switch` on an integer with `case`/`default` groups each ending in break/return (rendered as an if chain);
+              file-scope integer variables (read = parameter `glob_<name>`, written = result component);
+              calls listed in the spec's `ignore_calls` (e.g. lzma_free) and `if`s that guard nothing rendered are skipped;
+              `outline_ifs`: every joined `if` becomes an auxiliary definition (keeps big functions provable);
+              early returns do not duplicate the continuation when all other paths are effect-free.
+  fragments   spec `fragment = {first, last[, results][, continue_ends]}` translates the statements of one block between two
+              anchors ({decl: name} | {assign: target suffix[, nth]} | {if_reads: member} | {if_array: name} | {if_var: name});
+              variables declared outside become parameters (integers also result components when written), struct objects
+              and pointers outside are flattened like pointer parameters, `buffer[i + k]` with a free `i` is the cell
+              `buffer_i_k`; first result component 0 = fell through (or `continue`), r + 1 = `return r`.
+              `fragment = {call_arg: [callee or "*", k], reads: member}` translates one call argument expression.
+  BitVec mode spec `bitvec=True`: integers are `BitVec w` with the native wrapping operators (for the BCJ filters, whose
+              bridges are discharged by `bv_decide`); no tables, no calls into Nat-mode kernels.
 Unsigned arithmetic of width w is rendered on `Nat` with explicit `% 2^w`; `x & (2^k-1)` as `x % 2^k`,
 `x & ~(2^k-1)` as `x / 2^k * 2^k`, shifts by constants as `* 2^k` / `/ 2^k`, so that `omega` applies.
 """
@@ -32,6 +43,12 @@ import hashlib, json, os, random, re, subprocess
 
 class Unsupported(Exception):
     pass
+
+
+# BitVec mode (spec `bitvec=True`): fixed-width integers are rendered as `BitVec w` with the native wrapping operators
+# instead of `Nat` with `% 2^w` — for word-level bit manipulation (the BCJ filters) whose models are stated over BitVec
+# and whose bridges are discharged by `bv_decide`.  Set for the duration of one translation.
+BV = [False]
 
 
 # --------------------------------------------------------------------------------------------------------------
@@ -50,6 +67,8 @@ class CT:
         return "%s%d" % (self.kind, self.w) if self.kind in "us" else {"b": "bool", "p": "ptr", "v": "void", "a": "array"}.get(self.kind, "?")
 
     def lean(self):
+        if BV[0] and self.kind in "us":
+            return "BitVec %d" % self.w
         return {"u": "Nat", "s": "Int", "b": "Bool"}[self.kind]
 
     def isint(self):
@@ -198,6 +217,8 @@ class V:
 
 
 def ite_v(cc, x, y, ty):
+    if BV[0]:
+        return V("(if %s then %s else %s)" % (cc, x.text, y.text), ty, None, ("nn" if (x.nat is not None and y.nat is not None) else None), (cc, x, y))
     nat = "(if %s then %s else %s)" % (cc, x.nat, y.nat) if (x.nat is not None and y.nat is not None) else None
     if ty.kind == "s":
         return V("(if %s then %s else %s : Int)" % (cc, x.text, y.text), ty, None, nat, (cc, x, y))
@@ -212,6 +233,8 @@ def from_nat(nat, ty):
 def lit(v, ty):
     if ty.kind == "b":
         return V("true" if v else "false", ty, 1 if v else 0)
+    if BV[0]:
+        return V("%d#%d" % (v % (1 << ty.w), ty.w), ty, v, "nn" if v >= 0 else None)
     if ty.kind == "s":
         return V("(%d : Int)" % v, ty, v, str(v) if v >= 0 else None)
     return V(str(v), ty, v)
@@ -245,6 +268,8 @@ def convert(v, to):
     if v.ite is not None:
         cc, x, y = v.ite
         return ite_v(cc, convert(x, to), convert(y, to), to)
+    if BV[0]:
+        return bv_convert(v, to)
     if to.kind == "b":
         return V("decide (%s ≠ 0)" % atom(v.nat if v.nat is not None else v.text), to)
     if fr.kind == "s" and v.nat is not None:
@@ -271,6 +296,51 @@ def convert(v, to):
         h = 1 << (to.w - 1)
         return V("(%s + %d) %% %d - %d" % (atom(v.text), h, 1 << to.w, h), to)
     raise Unsupported("conversion %r -> %r" % (fr, to))
+
+
+def bv_convert(v, to):
+    fr = v.ty
+    if to.kind == "b":
+        return V("decide (%s ≠ 0#%d)" % (atom(v.text), fr.w), to)
+    if fr.kind == "b":
+        return V("(if %s then 1#%d else 0#%d)" % (atom(v.text), to.w, to.w), to, None, "nn")
+    nonneg = fr.kind == "u" or v.nat is not None
+    if to.w == fr.w:
+        return V(v.text, to, None, v.nat if to.kind == "s" and fr.kind == "s" else None)
+    if to.w < fr.w:
+        return V("%s.setWidth %d" % (atom(v.text), to.w), to)
+    if nonneg:
+        return V("%s.setWidth %d" % (atom(v.text), to.w), to, None, "nn")
+    return V("%s.signExtend %d" % (atom(v.text), to.w), to)
+
+
+def bv_arith(op, a, b, ty):
+    A, B = atom(a.text), atom(b.text)
+    nn = a.nat is not None and (b.nat is not None or b.ty.kind == "u")
+    unsigned = ty.kind == "u" or nn
+    if op in ("+", "-", "*"):
+        return V("%s %s %s" % (A, op, B), ty)
+    if op in ("/", "%"):
+        if unsigned:
+            return V("%s %s %s" % (A, op, B), ty, None, "nn" if ty.kind == "s" else None)
+        return V("%s.%s %s" % (A, "sdiv" if op == "/" else "srem", B), ty)
+    if op in ("<<", ">>"):
+        if b.const is not None:
+            if not 0 <= b.const < ty.w:
+                raise Unsupported("shift count %d out of range" % b.const)
+            cnt = str(b.const)
+        else:
+            cnt = B
+        if op == "<<":
+            return V("%s <<< %s" % (A, cnt), ty)
+        if ty.kind == "u" or a.nat is not None:
+            return V("%s >>> %s" % (A, cnt), ty, None, "nn" if ty.kind == "s" else None)
+        if b.const is None:
+            raise Unsupported("arithmetic right shift by a non-constant")
+        return V("%s.sshiftRight %s" % (A, cnt), ty)
+    sym = {"&": "&&&", "|": "|||", "^": "^^^"}[op]
+    keep = "nn" if ty.kind == "s" and ((op == "&" and (a.nat is not None or b.nat is not None)) or (a.nat is not None and b.nat is not None)) else None
+    return V("%s %s %s" % (A, sym, B), ty, None, keep)
 
 
 def pow2(c):
@@ -301,6 +371,8 @@ def arith(op, a, b, ty):
         elif not in_range(r, ty):
             raise Unsupported("signed overflow in a constant expression")
         return lit(r, ty)
+    if BV[0]:
+        return bv_arith(op, a, b, ty)
     A, B = atom(a.text), atom(b.text)
     if ty.kind == "s":
         if a.nat is not None and b.nat is not None and op in ("+", "*", "/", "%"):
@@ -419,6 +491,15 @@ class PtrBase:
         return lean_ident(self.name + "_" + re.sub(r"[\[\]]", "", path).replace(".", "_"))
 
 
+class FreeBase(PtrBase):
+    """fragment mode: the integer variables declared outside the fragment"""
+    def __init__(self):
+        PtrBase.__init__(self, "", "free", "")
+
+    def lean(self, path):
+        return lean_ident(path)
+
+
 class Kernel:
     def __init__(self):
         self.cname = self.lean_name = self.src = ""
@@ -473,6 +554,9 @@ class FnTranslator:
         self.always = set()
         self.free_params = []
         self.frag_plain = False
+        self.in_loop = 0
+        self.field_map = {}        # lean name of a field / array cell / free variable -> (base key, base object, path, CT); never rolled back
+        self.frag_end = None
 
     # ---- names ---------------------------------------------------------------------------------------------
     def fresh(self, base):
@@ -512,10 +596,12 @@ class FnTranslator:
             self.bases[key] = base
             v = {"kind": "ptr", "base": base}
         elif ct.isint():
-            nm = self.fresh(rd["name"])
-            v = {"kind": "int", "lean": nm, "ct": ct}
-            self.always.add(nm)
-            self.free_params.append(Param(nm, ct, ("free", rd["name"])))
+            # an integer variable declared outside the fragment: read = input, written = result component
+            base = self.bases.get("free")
+            if base is None:
+                base = self.bases["free"] = FreeBase()
+            self.used_names.add(lean_ident(rd["name"]))
+            v = {"kind": "freeint", "base": base, "name": rd["name"], "ct": ct}
         else:
             raise Unsupported("free variable `%s` of type `%s`" % (rd.get("name"), ts))
         self.vars[rd["id"]] = v
@@ -555,6 +641,8 @@ class FnTranslator:
                         return ("field", base, rd["name"], ct)
                     return ("global", rd, None)
                 raise Unsupported("reference to `%s` (%s)" % (rd.get("name"), rd.get("kind")))
+            if v["kind"] == "freeint":
+                return ("field", v["base"], v["name"], v["ct"])
             return ("var", v)
         if k == "MemberExpr":
             if n.get("isArrow"):
@@ -593,7 +681,7 @@ class FnTranslator:
         """fragment mode: `v` or `v + c` (v a variable declared outside the fragment) as the name of an array cell"""
         n = strip_casts(n)
         if n.get("kind") == "DeclRefExpr" and n["referencedDecl"].get("kind") in ("VarDecl", "ParmVarDecl"):
-            return n["referencedDecl"]["name"]
+            return n["referencedDecl"]["name"] + "+0"          # `buffer[i]` and `buffer[i + 0]` are the same cell
         if n.get("kind") == "BinaryOperator" and n.get("opcode") == "+":
             a, b = [strip_casts(x) for x in inner(n)]
             if a.get("kind") == "IntegerLiteral":
@@ -630,6 +718,7 @@ class FnTranslator:
             if not ct.isint():
                 raise Unsupported("read of non-integer field %s" % path)
             nm = base.lean(path)
+            self.field_map[nm] = (base.index, base, path, ct)
             if nm not in st:
                 if base.index is None:
                     raise Unsupported("field `%s` of a fresh object is read before it is written" % path)
@@ -639,6 +728,8 @@ class FnTranslator:
                 return lit(st.consts[nm], ct)
             return V(nm, ct)
         if lv[0] == "table":
+            if BV[0]:
+                raise Unsupported("table lookup in BitVec mode")
             _, t, idx = lv
             if idx.ty.kind != "u":
                 if idx.const is None or idx.const < 0:
@@ -721,6 +812,8 @@ class FnTranslator:
                 return x
             if op == "-":
                 return arith("-", lit(0, ty), x, ty)
+            if op == "~" and BV[0] and x.const is None:
+                return V("~~~%s" % atom(x.text), ty)
             if op == "~":
                 if ty.kind != "u":
                     if x.const is not None and in_range(~x.const, ty):
@@ -802,6 +895,11 @@ class FnTranslator:
                     return "True" if py_cmp(op, x.const, y.const) else "False"
                 if x.ty.kind == "b":
                     raise Unsupported("comparison of bool values")
+                if BV[0]:
+                    if op in ("==", "!=") or x.ty.kind == "u" or (x.nat is not None and y.nat is not None):
+                        return "%s %s %s" % (atom(x.text), CMP[op], atom(y.text))        # `<` on BitVec is unsigned
+                    a, b = (x, y) if op in ("<", "<=") else (y, x)
+                    return "%s.%s %s = true" % (atom(a.text), "slt" if op in ("<", ">") else "sle", atom(b.text))
                 if x.ty.kind == "s" and x.nat is not None and y.nat is not None:
                     return "%s %s %s" % (atom(x.nat), CMP[op], atom(y.nat))
                 return "%s %s %s" % (atom(x.text), CMP[op], atom(y.text))
@@ -813,6 +911,8 @@ class FnTranslator:
             return "True" if v.const != 0 else "False"
         if v.ty.kind == "b":
             return "%s = true" % atom(v.text)
+        if BV[0]:
+            return "%s ≠ 0#%d" % (atom(v.text), v.ty.w)
         return "%s ≠ 0" % atom(v.nat if v.nat is not None else v.text)
 
     def call(self, n):
@@ -826,6 +926,8 @@ class FnTranslator:
         kk = self.registry.get(name)
         if kk is None:
             raise Unsupported("call to `%s`, which is not a translated kernel" % name)
+        if BV[0] != bool(getattr(kk, "bitvec", False)):
+            raise Unsupported("call between a BitVec-mode and a Nat-mode kernel (`%s`)" % name)
         if kk.outputs:
             raise Unsupported("call to `%s`, which writes through a pointer" % name)
         args = parts[1:]
@@ -836,6 +938,11 @@ class FnTranslator:
                 if v.ty != p.ct:
                     v = convert(v, p.ct)
                 texts.append(atom(v.text))
+            elif p.origin[1] == "glob":
+                base = self.bases.get("glob")
+                if base is None:
+                    base = self.bases["glob"] = PtrBase("glob", "glob", "")
+                texts.append(self.read_lv(("field", base, p.origin[2], p.ct), self.st).text)
             else:
                 base = self.ptr_base(args[p.origin[1]])
                 cb = kk.ptrs.get(p.origin[1])
@@ -848,7 +955,7 @@ class FnTranslator:
     # ---- statements ----------------------------------------------------------------------------------------
     @staticmethod
     def may_return(n):
-        return any(x.get("kind") == "ReturnStmt" for x in walk(n))
+        return any(x.get("kind") in ("ReturnStmt", "ContinueStmt") for x in walk(n))
 
     @staticmethod
     def stmts_of(n):
@@ -884,6 +991,8 @@ class FnTranslator:
         return vals
 
     def ret_lines(self, s, st):
+        if s.get("kind") == "ContinueStmt":
+            return self.frag_end(st)
         sub = inner(s)
         parts = []
         if sub:
@@ -923,6 +1032,7 @@ class FnTranslator:
                 raise Unsupported("store to non-integer field %s" % path)
             v = convert(v, ct)
             nm = base.lean(path)
+            self.field_map[nm] = (base.index, base, path, ct)
             base.writes[path] = ct
             st.add(nm)
             self.set_const(st, nm, v)
@@ -1076,6 +1186,11 @@ class FnTranslator:
                 continue
             if k == "ReturnStmt":
                 return lines + self.ret_lines(s, st)
+            if k == "ContinueStmt":
+                # only in a fragment that is the tail of a loop body: `continue` = the fragment ends here
+                if not (self.spec.get("fragment") or {}).get("continue_ends") or self.frag_end is None or self.in_loop:
+                    raise Unsupported("statement of kind ContinueStmt")
+                return lines + self.frag_end(st)
             if k == "DeclStmt":
                 lines += self.decl_stmt(s, st)
             elif k == "IfStmt":
@@ -1149,7 +1264,7 @@ class FnTranslator:
                 if sub is None:
                     return None
                 paths += sub
-            elif k == "ReturnStmt":
+            elif k == "ReturnStmt" or (k == "ContinueStmt" and (self.spec.get("fragment") or {}).get("continue_ends")):
                 paths.append(("True", s))
                 return paths
             elif k == "IfStmt":
@@ -1350,23 +1465,18 @@ class FnTranslator:
         return out
 
     def is_field_name(self, nm):
-        return nm in self.field_names()
-
-    def field_names(self):
-        d = {}
-        for b in self.bases.values():
-            for path, ct in list(b.reads.items()) + list(b.writes.items()):
-                d[b.lean(path)] = (b, path, ct)
-        return d
+        return nm in self.field_map
 
     def touch_field_input(self, nm):
-        f = self.field_names().get(nm)
+        f = self.field_map.get(nm)
         if f is None:
             return
-        b, path, ct = f
-        if b.index is None:
+        key, b, path, ct = f
+        if key is None:
             raise Unsupported("field `%s` of a fresh object may be used before it is written" % path)
-        b.reads[path] = ct
+        if self.bases.get(key) is not b and key not in self.bases:
+            self.bases[key] = b
+        self.bases[key].reads[path] = ct
 
     def snapshot(self):
         return (dict(self.vars), set(self.used_names), list(self.aux), self.nloops, self.ntmp, list(self.fuel),
@@ -1534,6 +1644,11 @@ class FnTranslator:
             return False
         if "if_reads" in a:
             return k == "IfStmt" and any(x.get("kind") == "MemberExpr" and self.member_path(x).endswith(a["if_reads"]) for x in walk(inner(s)[0]))
+        if "if_array" in a:
+            return k == "IfStmt" and any(x.get("kind") == "ArraySubscriptExpr" and strip_casts(inner(x)[0]).get("referencedDecl", {}).get("name") == a["if_array"]
+                                         for x in walk(inner(s)[0]))
+        if "if_var" in a:
+            return k == "IfStmt" and any(x.get("kind") == "DeclRefExpr" and x.get("referencedDecl", {}).get("name") == a["if_var"] for x in walk(inner(s)[0]))
         raise Unsupported("fragment anchor %r" % (a,))
 
     def find_fragment(self, body, frag):
@@ -1563,9 +1678,9 @@ class FnTranslator:
                     if n > 0:
                         n -= 1
                         continue
-                    for j in range(i, len(ss)):
-                        if self.stmt_matches(ss[j], last):
-                            return ss[i:j + 1]
+                    js = [j for j in range(i, len(ss)) if self.stmt_matches(ss[j], last)]
+                    if js:
+                        return ss[i:(js[-1] if last.get("nth") == -1 else js[0]) + 1]
                     raise Unsupported("fragment: no statement matching %r after %r" % (last, first))
         raise Unsupported("fragment: no statement matching %r" % (first,))
 
@@ -1581,6 +1696,15 @@ class FnTranslator:
         return out
 
     def translate(self):
+        BV[0] = bool(self.spec.get("bitvec"))
+        try:
+            k = self.translate_()
+            k.bitvec = BV[0]
+            return k
+        finally:
+            BV[0] = False
+
+    def translate_(self):
         fn = self.fn
         m = re.match(r"(.*?)\s*\(", fn["type"]["qualType"])
         rt = parse_type_str(m.group(1)) if m else None
@@ -1632,6 +1756,7 @@ class FnTranslator:
                 if not vals:
                     raise Unsupported("void function without outputs")
                 return [vals[0] if len(vals) == 1 else "(" + ", ".join(vals) + ")"]
+            self.frag_end = end if frag else None
             lines = self.block(frag_stmts if frag else inner(body), st, end)
             found = {}
             for key, b in self.bases.items():
